@@ -1,4 +1,5 @@
 import FrappyModel.Klass.ConfigAttach
+import FrappyModel.Klass.ConfigUnit
 /-
 C10 — Configuration is applied faithfully; erroneous configuration is rejected whole.
 
@@ -179,6 +180,37 @@ def wellFormedB (c : ClassDesc DT Val) : Bool :=
   decide ((c.modProps.map (·.name)).Nodup) && decide ((c.params.map (·.name)).Nodup) &&
   c.params.all fun pd => !pd.limit.isSome || c.params.all fun b => b.name != pd.base || b.limit.isNone
 
+/-! ## the main unit
+
+"the described datainfo shows the overridden limits/unit": units of parameters may refer to the unit of the main value by
+`$`.  The unit configured for `value` (else its class unit) is what every `$` of every parameter of that instance shows —
+wherever the `$` sits: in the unit of a scalar, of the members of an array, of a member of a tuple (the `<p>_limits` pair,
+windows, tables).  A module without parameter `value`, or whose `value` has no unit, shows its units as they are. -/
+
+/-- the main unit of the instance according to the configuration: the unit of the datatype of `value` after the
+overrides (`none`: no parameter `value`, or no unit) -/
+def mainUnit (ops : Ops DT Val) (u : UnitOps DT) (c : ClassDesc DT Val) (cfg : Cfg Val) : Option String :=
+  match c.params.find? (fun pd => pd.name == "value") with
+  | none => none
+  | some pd =>
+    match startOf ops c cfg pd with
+    | none => none
+    | some (dt0, _) =>
+      match dtAfter ops dt0 ((cfgOf pd.name cfg).getD []) with
+      | none => none
+      | some dt' => if u.unitOf dt' = "" then none else some (u.unitOf dt')
+
+/-- the datatype a parameter SHOWS: the datatype after the overrides with the main unit put in -/
+def shownDT (u : UnitOps DT) (mu : Option String) (dt' : DT) : DT :=
+  match mu with
+  | some m => u.setMainUnit m dt'
+  | none => dt'
+
+/-- hypothesis of `main_unit_applied`, checked by the driver on every case: the parameter called `value`, if any, has
+a datatype to start from -/
+def valueTypedB (ops : Ops DT Val) (c : ClassDesc DT Val) (cfg : Cfg Val) : Bool :=
+  c.params.all fun pd => pd.name != "value" || (startOf ops c cfg pd).isSome
+
 /-! ## what is observed on the implementation -/
 
 structure ObsParam (DT Val : Type) where
@@ -217,8 +249,8 @@ def optB {α : Type} (eq : α → α → Bool) : Option α → Option α → Boo
   | _, _ => false
 
 /-- one configured parameter (own datatype) shows its configuration on the instance -/
-def paramAppliedB (ops : Ops DT Val) (g : Glue DT Val) (pd : ParamDesc DT Val) (dt0 : DT) (dflt : Option Val)
-    (items : List (Name × Val))
+def paramAppliedB (ops : Ops DT Val) (g : Glue DT Val) (shown : DT → DT) (pd : ParamDesc DT Val) (dt0 : DT)
+    (dflt : Option Val) (items : List (Name × Val))
     (o : ObsParam DT Val) : Bool :=
   match dtAfter ops dt0 items with
   | none => false
@@ -239,9 +271,9 @@ def paramAppliedB (ops : Ops DT Val) (g : Glue DT Val) (pd : ParamDesc DT Val) (
         | some v => (ops.ownProp "export").bind (fun f => f v)
         | none => lookup "export" pd.own)
      optB (· == ·) o.described ex && (o.reach == ex.toList)) &&
-    -- the described datainfo shows the overridden limits/unit
+    -- the described datainfo shows the overridden limits/unit (`shown`: with the main unit in place of `$`)
     (match o.described with
-     | some _ => optB g.beqDT o.datainfo (some dt')
+     | some _ => optB g.beqDT o.datainfo (some (shown dt'))
      | none => true) &&
     -- later range checks use them
     (o.probes.all fun pr => pr.2 == (ops.validate dt' pr.1).isSome)
@@ -267,14 +299,15 @@ def modPropsB (g : Glue DT Val) (c : ClassDesc DT Val) (cfg : Cfg Val) (o : ObsM
        | _, _ => true)          -- not observed; an ill-typed value is judged by `rejectedB`
     | none => true
 
-def appliedB (ops : Ops DT Val) (g : Glue DT Val) (c : ClassDesc DT Val) (cfg : Cfg Val) (o : ObsModule DT Val) : Bool :=
+def appliedB (ops : Ops DT Val) (u : UnitOps DT) (g : Glue DT Val) (c : ClassDesc DT Val) (cfg : Cfg Val)
+    (o : ObsModule DT Val) : Bool :=
   !o.registered ||
   modPropsB g c cfg o &&
   c.params.all fun pd =>
     match startOf ops c cfg pd with
     | some (dt0, dflt) =>
       (match findObs pd.name o.params with
-       | some op => paramAppliedB ops g pd dt0 dflt ((cfgOf pd.name cfg).getD []) op
+       | some op => paramAppliedB ops g (shownDT u (mainUnit ops u c cfg)) pd dt0 dflt ((cfgOf pd.name cfg).getD []) op
        | none => false)
     | none => true
 
@@ -502,5 +535,37 @@ def mergeB {M : Type} (beq : M → M → Bool) (files : List (CfgFile M)) (m : M
   (m.modules.all fun e => names.contains e.1) &&
   (names.all fun k => m.ambiguous.contains k == decide (2 ≤ countFiles files k)) &&
   (m.ambiguous.all fun k => names.contains k)
+
+/-! ## which configuration file is applied
+
+The configuration directories are an ordered list (`FRAPPY_CONFDIR=site:general`, a path list): what is found in an
+earlier directory takes precedence over — shadows — everything of the same name in later directories, whatever the
+suffixes; within one directory `<name>_cfg.py` is preferred to `<name>.py`, and that to `<name>`.  A name given with a
+path separator is that file.  The node is built from exactly these files, in the order given ("config files merged from
+several sources"); a name for which no directory has a file keeps the node from starting.
+
+(This clause is not spelled out in the statement; it is what "the configuration" of a node started as
+`frappy-server <name>` refers to.  A search which takes a file from a later directory although an earlier one has the
+name silently ignores the configuration with precedence.) -/
+
+/-- the first directory, in the order configured, which has the name under any of the suffixes -/
+def firstDirWith (isFile : String → String → Bool) (dirs : List String) (n : String) : Option String :=
+  dirs.find? fun d => cfgSuffixes.any fun s => isFile d (n ++ s)
+
+/-- the file a configuration reference stands for -/
+def fileFor (isFile : String → String → Bool) (dirs : List String) : CfgRef → Option (String × String)
+  | .path p => if isFile "" p then some ("", p) else none
+  | .name n =>
+    match firstDirWith isFile dirs n with
+    | none => none
+    | some d => (cfgSuffixes.find? fun s => isFile d (n ++ s)).map fun s => (d, n ++ s)
+
+/-- what is observed of one start from a list of configuration references: the files parsed, in order (`none`: the start
+was refused because a file was not found) -/
+def lookupB (isFile : String → String → Bool) (dirs : List String) (refs : List CfgRef)
+    (loaded : Option (List (String × String))) : Bool :=
+  match loaded with
+  | none => refs.any fun r => (fileFor isFile dirs r).isNone
+  | some fs => fs.map some == refs.map (fileFor isFile dirs)
 
 end Frappy.Spec.C10
